@@ -1,4 +1,4 @@
-/* C08 — access control: visibility and set/call rights follow the groups of the LAST successful authentication only.
+/* C08 - access control: visibility and set/call rights follow the groups of the LAST successful authentication only.
  * section 0: every sequence (depth bound) of authenticate attempts (right / wrong password / unknown user / repeated /
  *            as different users, users whose auth object omits keys) followed by a probe suite (fetch all, get all,
  *            set every state, call every method) on every transport, for every fill byte of fresh heap memory; the
